@@ -288,16 +288,24 @@ Definition restore_of (ad : adapter) (g : dg) : arg :=
                      or golem's VerificationError itself)
      UEdgesLe k f    a structural predicate evaluated on the argument received (number of
                      edges <= k; otherwise fail with `f`)
+     UNodesLe k f    the same with the number of nodes (a "maximal size" rule)
      UNested bs      a composite rule: it runs an inner GraphVerifier(built-in rules bs,
                      raise_on_failure=True) on the graph it received (a NetworkX argument is first
                      adapted back to an OptGraph) and returns its result / lets its
                      VerificationError (a ValueError) escape                                  *)
-Inductive ubehav := UConst (o : outcome) | UEdgesLe (k : nat) (fail : outcome) | UNested (bs : list builtin).
+Inductive ubehav := UConst (o : outcome) | UEdgesLe (k : nat) (fail : outcome) | UNodesLe (k : nat) (fail : outcome)
+                 | UNested (bs : list builtin).
 
 Definition arg_edges (a : arg) : nat :=
   match a with
   | AOpt _ g => length (get_edges g)       (* len(graph.get_edges()) *)
   | ANx _ es => length es                   (* nx_graph.number_of_edges() *)
+  end.
+
+Definition arg_nodes (a : arg) : nat :=
+  match a with
+  | AOpt _ g => length g                    (* graph.length *)
+  | ANx n _ => n                            (* nx_graph.number_of_nodes() *)
   end.
 
 (* the graph a composite rule verifies: the OptGraph it received, or adapter.adapt(nx_graph)
@@ -321,6 +329,7 @@ Definition ubehav_fn (u : ubehav) (a : arg) : outcome :=
   match u with
   | UConst o => o
   | UEdgesLe k fail => if arg_edges a <=? k then RTrue else fail
+  | UNodesLe k fail => if arg_nodes a <=? k then RTrue else fail
   | UNested bs => verdict_outcome (verify (fun g => AOpt true g) true (map builtin_rule bs) (arg_graph a))
   end.
 
@@ -387,6 +396,7 @@ Definition o_rule_holds (o : roracle) (c : crule) : bool :=
   | CB b => o_cond o b
   | CU _ (UConst r) => negb (rejects r)
   | CU _ (UEdgesLe k fail) => (o_edge_count o <=? k) || negb (rejects fail)
+  | CU _ (UNodesLe k fail) => (ro_n o <=? k) || negb (rejects fail)
   | CU _ (UNested bs) => forallb (o_cond o) bs
   end.
 
@@ -397,6 +407,7 @@ Definition c_raises_other (o : roracle) (c : crule) : bool :=
   | CB _ => false
   | CU _ (UConst r) => outcome_eqb r ROther
   | CU _ (UEdgesLe k fail) => negb (o_edge_count o <=? k) && outcome_eqb fail ROther
+  | CU _ (UNodesLe k fail) => negb (ro_n o <=? k) && outcome_eqb fail ROther
   | CU _ (UNested _) => false
   end.
 
@@ -475,3 +486,35 @@ Definition check_case (c : dg * list run) : list bool :=
   let o := mk_roracle g in
   let rs := map (check_run_shared t o g) (snd c) in
   [forallb fst rs; forallb snd rs].
+
+(* ---------------------------------------------------------------------------------------- *)
+(* 7. a verifier INSTANCE used for several graphs                                            *)
+(* ---------------------------------------------------------------------------------------- *)
+(* GraphVerifier keeps its adapter, its rules and the raise flag; a call reads them and changes
+   nothing, so the instance after a call is the instance before it *)
+Record verifier (D : Type) := { v_restore : dg -> D; v_raise : bool; v_rules : list (rule D) }.
+Arguments v_restore {D} v. Arguments v_raise {D} v. Arguments v_rules {D} v.
+
+Definition call {D} (v : verifier D) (g : dg) : verifier D * verdict :=
+  (v, verify (v_restore v) (v_raise v) (v_rules v) g).
+
+(* verifier(g1); verifier(g2); ... on one instance *)
+Fixpoint call_seq {D} (v : verifier D) (gs : list dg) : list verdict :=
+  match gs with
+  | [] => []
+  | g :: r => let vx := call v g in snd vx :: call_seq (fst vx) r
+  end.
+
+(* correspondence case: one GraphVerifier instance (one adapter instance, one list of rule
+   objects) called on the graphs in order; per call the observed verdict and user-rule calls *)
+Definition seq_case := (adapter * bool * list crule * list (dg * obs))%type.
+
+Definition check_seq (c : seq_case) : list bool :=
+  match c with
+  | (ad, rf, rules, cl) =>
+      let vs := call_seq {| v_restore := restore_of ad; v_raise := rf; v_rules := map denote rules |} (map fst cl) in
+      [ Nat.eqb (length vs) (length cl) &&
+        forallb (fun x => verdict_eqb (fst x) (ob_verdict (snd (snd x))) &&
+                          agree ad rf rules (fst (snd x)) (snd (snd x))) (combine vs cl);
+        forallb (fun go => holds_b ad rf rules (fst go) (snd go)) cl ]
+  end.
